@@ -3,6 +3,7 @@
 From Coq Require Import ZArith QArith Qminmax List Bool.
 From SB3V Require Import Model.Script Gen.Frag_onpolicy Model.OnPolicyCollect Proofs.OnPolicyCollectProofs.
 From SB3V Require Import Model.Gae Model.Pipeline Proofs.PipelineProofs.
+From SB3V Require Refuted.C06_callback_stop.
 Import ListNotations.
 Local Open Scope Z_scope.
 
@@ -119,6 +120,19 @@ Print Assumptions C06_sde_resampling_cadence.
 Theorem C06_fragment_sde : forall u f j, onp_sde_guard u f j = sde_resample u f j /\ onp_sde_start_guard u = u.
 Proof. exact frag_sde_guard. Qed.
 Print Assumptions C06_fragment_sde.
+
+(* callback stop requests: without one the stop-aware collection is the plain one; a stopped step moves the environment but not
+   _last_obs / _last_episode_starts - the consequence for a continued learn() is the finding in Refuted/C06_callback_stop.v *)
+Theorem C06_no_stop_collection_is_plain : forall ak gamma sc ps st,
+  collect_s ak gamma sc st (map (fun p => (p, false)) ps) = collect ak gamma sc st ps.
+Proof. exact collect_s_no_stop. Qed.
+Print Assumptions C06_no_stop_collection_is_plain.
+
+Theorem C06_stopped_step : forall sc st,
+  cs_obs (step_col_stopped sc st) = cs_obs st /\ cs_start (step_col_stopped sc st) = cs_start st /\
+  cs_cur (step_col_stopped sc st) = fst (vstep1 sc (cs_cur st)).
+Proof. exact step_col_stopped_spec. Qed.
+Print Assumptions C06_stopped_step.
 
 (* ---- composition with C05: collect_rollouts followed by compute_returns_and_advantage ---- *)
 
